@@ -114,7 +114,7 @@ var TemplateNames = []string{
 	"leading-lookahead", "bumpalong-loop", "loop-then-x", "loop-ending-loop-body", "alt-shared-prefix",
 	"alt-shared-set-prefix", "atomic-alternation", "nested-atomic", "lookbehind-loop", "conditional-loop",
 	"wide-literal", "negated-first-set", "counted-group-loop", "lazy-loop-then-x", "alt-with-empty",
-	"start-anchor-G", "backref-after-loop", "lookaround-conditional", "alt-counted-set-prefix", "loop-then-optional-group", "group-loop-overlapping-head", "long-literal", "lookbehind-group-loop", "landmark-overlap", "lazy-group-loop", "capture-loop-backref", "long-counted-set", "balancing-pop", "balancing-pop-mirrored", "landmark-alternation",
+	"start-anchor-G", "backref-after-loop", "lookaround-conditional", "alt-counted-set-prefix", "loop-then-optional-group", "group-loop-overlapping-head", "long-literal", "lookbehind-group-loop", "landmark-overlap", "lazy-group-loop", "capture-loop-backref", "long-counted-set", "balancing-pop", "balancing-pop-mirrored", "landmark-alternation", "alt-shared-lead-byte", "counted-literal-group", "optional-overlapping-set-loop",
 }
 
 // Template builds template number k with random leaves.
@@ -360,6 +360,48 @@ func (t *T) Template(k int) *Node {
 			n.Kids = append(n.Kids, landmark(), Rep(Esc("w"), 1, -1))
 		}
 		return n
+	case "alt-shared-lead-byte":
+		// alternation branches that begin with different runes sharing their leading UTF-8 bytes,
+		// alone or behind a set loop / a literal (byte-wise common prefixes)
+		pairs := [][2]rune{{'é', 'è'}, {'中', '与'}, {'λ', 'μ'}, {'ж', 'з'}, {0x1F600, 0x1F601}, {'é', 'ê'}}
+		pr := pairs[t.R.Intn(len(pairs))]
+		alt := NC(Or(Cat(L(pr[0]), S(t.word(1))), Cat(L(pr[1]), S(t.word(1)))))
+		if t.R.Intn(3) == 0 {
+			alt.Kids[0].Kids = append(alt.Kids[0].Kids, Cat(L(pr[0]), L(pr[1])))
+		}
+		switch t.R.Intn(4) {
+		case 0:
+			return Cat(Rep(Esc("s"), 0, -1), alt, t.tail())
+		case 1:
+			return Cat(Rep(t.set(), t.R.Intn(2), -1), alt, t.tail())
+		case 2:
+			return Cat(S(t.word(1+t.R.Intn(2))), alt, t.tail())
+		}
+		return Cat(alt, t.tail())
+	case "counted-literal-group":
+		// a literal group repeated an exact number of times around the analysers' cut-offs (4
+		// iterations, 32 characters), with a different literal behind it
+		n := []int{3, 4, 5, 6, 8, 9, 17}[t.R.Intn(7)]
+		g := NC(S(t.word(2 + t.R.Intn(2))))
+		var grp *Node = g
+		if t.R.Intn(3) == 0 {
+			grp = t.Cap(S(t.word(2)))
+		}
+		return Cat(Rep(grp, n, n), S(t.word(1+t.R.Intn(2))), t.tail())
+	case "optional-overlapping-set-loop":
+		// set loop, then an optional set loop sharing characters with it - explicitly atomic, or
+		// captured and referenced later - then an item disjoint from the first loop
+		a, b, c := t.l(), t.l(), t.l()
+		first := Rep(Cls(false, CR(a), CR(b)), 0, -1)
+		second := Rep(Cls(false, CR(b), CR(c)), 0, 1+t.R.Intn(2))
+		end := []*Node{Esc("d"), L('!'), Cls(false, CR('!'), CR('1'))}[t.R.Intn(3)]
+		switch t.R.Intn(3) {
+		case 0:
+			return Cat(first, At(second), end, t.tail())
+		case 1:
+			return Cat(first, t.Cap(second), end, &Node{K: KBackref, Ref: t.gid}, t.tail())
+		}
+		return Cat(t.Cap(first), second, end, &Node{K: KBackref, Ref: t.gid}, t.tail())
 	case "balancing-pop-mirrored":
 		// the mirror image of balancing-pop: read right to left the pushes come first, so the cancelled
 		// capture lies to the right of the balancing group (left to right the pop finds nothing to pop)
